@@ -142,3 +142,16 @@ Definition check_quad (mx mn : Z) (rtol_positive : bool) (ops : list qop) (impl_
     impl_ctor_ok && bools_eqb errs impl_errs && (q_min s =? impl_min)%Z && (q_max s =? impl_max)%Z &&
     forallb (poly_ok (q_min s)) polys
   end.
+
+(* ---- second-order entry points: doppler_shift, thermal_broadening (cpdef, public) and ZeemanStructure.__call__ ---- *)
+Definition check_doppler (T : otabs) (K : consts) (w : Q) (dir vel : vec) (out : Q) : bool :=
+  sqrt_table_ok (tS T) && close (pow2 (-48)) 0 (doppler_shift K (oS T) w dir vel) out.
+Definition check_thermal (T : otabs) (K : consts) (w t m out : Q) : bool :=
+  sqrt_table_ok (tS T) && close (pow2 (-48)) 0 (thermal_broadening K (oS T) w t m) out.
+Fixpoint pairs_ok (model : list (Q * Q)) (ws rs : list Q) : bool :=
+  match model, ws, rs with
+  | [], [], [] => true
+  | (w, r) :: t, w' :: tw, r' :: tr => Qeq_bool w w' && close (pow2 (-50)) 0 r r' && pairs_ok t tw tr
+  | _, _, _ => false
+  end.
+Definition check_zs (raw : list (Q * Q)) (ws rs : list Q) : bool := pairs_ok (zs_evaluate raw) ws rs.
